@@ -5,7 +5,7 @@ from .opcommon import h, base_desc
 
 ID = 'C17'
 LEVEL = 'exploration'
-RULE = ('strongly consistent generated bases (<= 4 atoms, <= 5 conditionals; unfalsifiable conditionals, '
+RULE = ('strongly consistent generated bases (<= 4 atoms, <= 5 conditionals; every 12th case 10-12 conditionals over <= 6 atoms, keys 1..n listed in a permuted insertion order in a third of the cases; unfalsifiable conditionals, '
         'single-conditional bases, duplicates, penguin shapes): PreOCF.init_random_min_c_rep(bb) must succeed with '
         'non-negative integer impacts that form a c-representation (reference check on enumerated worlds), rank '
         'EVERY world with the sum of the impacts of the conditionals it falsifies, accept every base conditional, '
@@ -21,8 +21,8 @@ TRUSTED = []
 FLOOR = {'quick': 500, 'thorough': 5000}
 BUDGET = {'quick': 100, 'thorough': 1500}
 N = {'quick': 2000, 'thorough': 20000}
-REQUIRED = {'quick': {'fronts_checked': 300, 'fronts_with_several_members': 5, 'bases_with_unfalsifiable_conditional': 30},
-            'thorough': {'fronts_checked': 3000, 'fronts_with_several_members': 50, 'bases_with_unfalsifiable_conditional': 300}}
+REQUIRED = {'quick': {'large_fronts_checked': 30, 'fronts_checked': 300, 'fronts_with_several_members': 5, 'bases_with_unfalsifiable_conditional': 30},
+            'thorough': {'large_fronts_checked': 300, 'fronts_checked': 3000, 'fronts_with_several_members': 50, 'bases_with_unfalsifiable_conditional': 300}}
 RECYCLE = 60
 
 
@@ -31,7 +31,9 @@ class Stall(BaseException):
 
 
 def cases(tier, seed):
-    return [{'prop': ID, 'seed': seed, 'idx': i} for i in range(N[tier])]
+    out = [{'prop': ID, 'seed': seed, 'idx': i, 'large': i % 12 == 0} for i in range(N[tier])]
+    out.sort(key=lambda c: not c['large'])
+    return out
 
 
 def run_case(case):
@@ -45,7 +47,23 @@ def run_case(case):
     def bump(k, n=1):
         cnt[k] = cnt.get(k, 0) + n
     fam = rng.choices(['rand', 'chain', 'indep', 'birds', 'single'], [8, 1, 2, 0.5, 1])[0]
-    if fam == 'birds':
+    large = bool(case.get('large'))
+    if large:
+        # >= 10 conditionals over <= 6 atoms: union of two small bases over disjoint atoms plus bridges; the
+        # front is judged without a box (soundness, exact minimality, membership of the object's impacts)
+        s1, c1, _ = gen.gen_base(rng, 'strong', family='rand', nat=3, ncond=rng.randint(5, 6))
+        s2, c2, _ = gen.gen_base(rng, 'strong', family='rand', nat=3, ncond=rng.randint(5, 6))
+        m2 = dict(zip(gen.NAMES[:3], ['d', 'e', 'f']))
+        sig = list(s1) + [m2[a] for a in s2]
+        conds = list(c1) + [(fml.rename(B, m2), fml.rename(A, m2)) for (B, A) in c2]
+        if rng.random() < 0.5:
+            # a bridge rule between the two halves (kept only if the base stays strongly consistent)
+            extra = (fml.V(rng.choice(sig[3:])), fml.V(rng.choice(sig[:3])))
+            if gen.classify(sig, conds + [extra])[0] == 'strong':
+                conds.append(extra)
+        rng.shuffle(conds)
+        fam = 'large'
+    elif fam == 'birds':
         sig, conds = gen.BIRDS
         sig, conds = list(sig), list(conds)
         if rng.random() < 0.5:
@@ -63,6 +81,15 @@ def run_case(case):
         else:
             sig, conds, _ = gen.gen_base(rng, 'strong', family='rand', nat=3, ncond=4)
     bdesc = base_desc(sig, conds)
+    # keys stay 1..n, but the dict may list them in another order (insertion order is presentation)
+    order = list(range(len(conds)))
+    if rng.random() < 0.35:
+        rng.shuffle(order)
+        bump('objects_with_permuted_insertion_order')
+    bdesc['insertion_order_of_keys'] = [i + 1 for i in order]
+
+    def mkbb():
+        return impl.mk_bb(sig, [conds[i] for i in order], keys=[i + 1 for i in order])
 
     def viol(sig_, **d):
         d['base'] = bdesc
@@ -78,7 +105,7 @@ def run_case(case):
     # ---- the ranking object
     impacts = None
     try:
-        o = PreOCF.init_random_min_c_rep(impl.mk_bb(sig, conds))
+        o = PreOCF.init_random_min_c_rep(mkbb())
         impacts = o.save_impacts()
     except Exception as e:
         if type(e).__name__ == 'SoftTimeout':
@@ -111,7 +138,7 @@ def run_case(case):
                     viol('base-conditional-not-accepted', conditional=fml.cond_text(B, A), impacts=impacts)
             qs = gen.gen_queries(rng, sig, conds, 6, extra_atom_p=0.0)
             try:
-                op = impl.results(impl.ask(impl.mk_bb(sig, conds), 'c-inference', 'rc2', impl.mk_queries(qs)))
+                op = impl.results(impl.ask(mkbb(), 'c-inference', 'rc2', impl.mk_queries(qs)))
             except Exception as e:
                 op = None
                 res['inconclusive'].append('c-inference raised %s' % type(e).__name__)
@@ -129,8 +156,12 @@ def run_case(case):
     U = min(5, (max(impacts) if impacts else 2) + 2)
     while (U + 1) ** n > 8000 and U > 2:
         U -= 1
-    ref_front = sorted(cs.pareto_front_box(U))
-    m = len(ref_front)
+    if large:
+        ref_front, U = [], -1
+        m = 12                          # generous step allowance; completeness is not box-checked here
+    else:
+        ref_front = sorted(cs.pareto_front_box(U))
+        m = len(ref_front)
     limit = 4 * (m + 2) + 8
     orig = z3.Optimize.check
     st = {'n': 0}
@@ -143,7 +174,7 @@ def run_case(case):
     z3.Optimize.check = check
     front = None
     try:
-        front = c_inference_pareto_front(impl.mk_bb(sig, conds))
+        front = c_inference_pareto_front(mkbb())
     except Stall:
         viol('front-enumeration-does-not-terminate%s' % (':single-conditional' if n == 1 else ''),
              checks=st['n'], limit=limit, reference_front=[list(x) for x in ref_front])
@@ -165,12 +196,17 @@ def run_case(case):
                 viol('front-member-not-a-c-representation', vector=list(x))
             elif not cs.pareto_minimal(x)[0]:
                 viol('front-member-not-pareto-minimal', vector=list(x), smaller=list(cs.pareto_minimal(x)[1]))
+        if large:
+            bump('large_fronts_checked')
+            if impacts is not None and cs.is_crep(tuple(impacts)) and cs.pareto_minimal(tuple(impacts))[0] \
+                    and tuple(impacts) not in set(fl):
+                viol('front-misses-the-objects-own-minimal-impacts', impacts=impacts, front=[list(x) for x in fl][:6])
         inbox = {x for x in fl if all(v <= U for v in x)}
         missing = set(ref_front) - inbox
         if missing:
             viol('front-misses-minimal-vector', missing=[list(x) for x in sorted(missing)],
                  front=[list(x) for x in fl], box=U)
-        if m >= 2:
+        if m >= 2 and not large:
             bump('fronts_with_several_members')
             res['nontrivial'].append(h(bdesc, 'front'))
     res['sample'] = {'base': bdesc, 'impacts': impacts, 'reference_front_in_box': [list(x) for x in ref_front],
